@@ -56,7 +56,7 @@ var familyWeights = []struct {
 	{"engine", "contact-missing-fields", 4}, {"engine", "mix", 14},
 	{"migrate", "mix", 6}, {"migrate", "legacy-corpus", 3}, {"clone", "mix", 4}, {"clone", "overlapping-mapping", 5}, {"query", "mix", 5},
 	{"xobject", "mix", 4}, {"xobject", "casevariant-get", 3},
-	{"definition", "invalid-headers", 3}, {"urns", "percent-escape", 2}, {"dates", "locale-names", 3}, {"dates", "parse-error-token", 2}, {"names", "flow-resolution", 3}, {"engine", "asset-order", 6},
+	{"definition", "invalid-headers", 3}, {"definition", "legacy-airtime-errors", 2}, {"urns", "percent-escape", 2}, {"dates", "locale-names", 3}, {"dates", "parse-error-token", 2}, {"names", "flow-resolution", 3}, {"process-env", "timezone-name-from-input", 3}, {"process-env", "timezone-name-stored", 2}, {"engine", "asset-order", 6}, {"engine", "cold-vs-warm-flow-cache", 3},
 	{"services", "dtone-two-currencies", 2}, {"services", "luis-intent-ties", 2}, {"services", "luis-distinct-scores", 2}, {"services", "wit-entity-roles", 2},
 }
 
@@ -91,6 +91,8 @@ func buildScenarios(seed uint64, n int) []*scenario {
 		case "engine":
 			if fw.feature == "asset-order" {
 				s = assetOrderScenario(g, i)
+			} else if fw.feature == "cold-vs-warm-flow-cache" {
+				s = coldWarmScenario(g, i)
 			} else {
 				s = engineScenario(g, fw.feature, i)
 			}
@@ -112,13 +114,19 @@ func buildScenarios(seed uint64, n int) []*scenario {
 		case "services":
 			s = servicesScenario(g, fw.feature, i)
 		case "definition":
-			s = invalidDefScenario(g, i)
+			if fw.feature == "legacy-airtime-errors" {
+				s = legacyAirtimeScenario(g, i)
+			} else {
+				s = invalidDefScenario(g, i)
+			}
 		case "urns":
 			s = urnEscapeScenario(g, i)
 		case "dates":
 			s = datesScenario(g, fw.feature, i)
 		case "names":
 			s = flowNameScenario(g, i)
+		case "process-env":
+			s = processEnvScenario(g, fw.feature, i)
 		}
 		res = append(res, s)
 	}
@@ -241,6 +249,21 @@ func classify(s *scenario, outName string, a, b []byte) (string, string) {
 		// what reading an invalid definition reports (class of the fixed: line of f501005)
 		return "definition:validation-error-text", p
 	}
+	switch s.Family {
+	case "engine/cold-vs-warm-flow-cache":
+		// a flow stored below the current spec is migrated on first load with UUIDs of the session's UUID source
+		return "flow-cache:lazy-migration-draws-uuids", p
+	case "process-env/timezone-name-from-input":
+		// a zone NAME taken from input ("Local") resolved to the zone of the process
+		return "process-env:timezone-name-from-input", p
+	case "process-env/timezone-name-stored":
+		// environment / contact JSON of the trigger naming the zone "Local"
+		return "process-env:stored-timezone-local", p
+	}
+	if s.Family == "definition/legacy-airtime-errors" {
+		// which of two reasons a legacy airtime rule set cannot be migrated for is reported
+		return "definition:migration-error-text", p
+	}
 	p = uuidSegment.ReplaceAllString(p, "<uuid>") // object members named by a UUID: the class must not depend on the UUID
 	cls := s.Family + "@" + outName
 	if p != "" {
@@ -248,6 +271,36 @@ func classify(s *scenario, outName string, a, b []byte) (string, string) {
 	}
 	cls = strings.ReplaceAll(cls, " ", "_")
 	return cls, full
+}
+
+// childEnv: the environment of fresh process p.  TZ, LANG, LC_ALL and LANGUAGE differ from child to child (and from this
+// process): they are incidental process state, not inputs of the engine.
+func childEnv(p int) []string {
+	variants := [][4]string{
+		{"Asia/Tokyo", "ja_JP.UTF-8", "ja_JP.UTF-8", "ja"},
+		{"America/St_Johns", "fr_CA.UTF-8", "fr_CA.UTF-8", "fr"},
+		{"UTC", "C", "C", ""},
+		{"Europe/London", "en_GB.UTF-8", "tr_TR.UTF-8", "tr:en"},
+		{"Pacific/Chatham", "ar_EG.UTF-8", "", "ar"},
+	}
+	v := variants[p%len(variants)]
+	var env []string
+	for _, kv := range os.Environ() {
+		k := kv
+		if i := strings.IndexByte(kv, '='); i >= 0 {
+			k = kv[:i]
+		}
+		switch k {
+		case "TZ", "LANG", "LC_ALL", "LANGUAGE", "LC_TIME", "LC_NUMERIC", "LC_COLLATE", "LC_CTYPE":
+			continue
+		}
+		env = append(env, kv)
+	}
+	env = append(env, "TZ="+v[0], "LANG="+v[1], "LANGUAGE="+v[3])
+	if v[2] != "" {
+		env = append(env, "LC_ALL="+v[2])
+	}
+	return env
 }
 
 func clip(b []byte) string {
@@ -350,7 +403,7 @@ func main() {
 	self, _ := os.Executable()
 	for p := 0; p < fresh; p++ {
 		cmd := exec.Command(self, "-child", fmt.Sprint(o.Seed), fmt.Sprint(nScen))
-		cmd.Env = os.Environ()
+		cmd.Env = childEnv(p)
 		outb, err := cmd.Output()
 		if err != nil {
 			res.Notes = append(res.Notes, fmt.Sprintf("fresh process %d failed: %v", p, err))
